@@ -68,6 +68,14 @@ Fixpoint seq_ok (fin : bool) (l : list stage) : bool :=
               end
   end.
 
+(* Once Execute has returned, its Completed is the last element of that
+   sequence (it is sent before anything else can be, and nothing follows). *)
+Fixpoint last_done (l : list stage) : bool :=
+  match l with
+  | [] => false
+  | s :: r => match r with [] => is_done s | _ => last_done r end
+  end.
+
 Definition rep_stage (rep : rstate) : list stage :=
   match rep with RIdle => [] | RExec _ st => [st] end.
 
@@ -80,11 +88,16 @@ Definition slot_inv (rep : rstate) (x : slot) (m : mon) : Prop :=
         /\ (exists st, rep = RExec (x_dig x) st /\ hon cu (x_dig x) st = true)
         /\ Forall (fun u => hon cu (fst u) (snd u) = true) (qs x))
   /\ seq_ok (x_finished x) (rep_stage rep ++ map snd (qs x)) = true
-  /\ (x_closed x = true -> x_finished x = true /\ x_pending x = None).
+  /\ (x_closed x = true -> x_finished x = true /\ x_pending x = None)
+  /\ (x_finished x = true -> last_done (rep_stage rep ++ map snd (qs x)) = true)
+  /\ m_closed m = x_closed x.
 
+(* Without a slot the client was told to go idle, or it has drained its
+   executor's channel to the close: what it reports is Idle or a Completed. *)
 Definition noslot_inv (rep : rstate) (m : mon) : Prop :=
   m_live m = None
-  /\ (rep = RIdle \/ exists cu d st, m_cur m = Some cu /\ rep = RExec d st /\ hon cu d st = true).
+  /\ (rep = RIdle \/ exists cu d st, m_cur m = Some cu /\ rep = RExec d st /\ hon cu d st = true
+                                    /\ is_done st = true).
 
 Definition Inv (rep : rstate) (sl : option slot) (m : mon) : Prop :=
   match sl with Some x => slot_inv rep x m | None => noslot_inv rep m end
@@ -136,6 +149,15 @@ Proof.
   - rewrite Hd. cbn. discriminate.
 Qed.
 
+Lemma last_done_snoc l s : last_done (l ++ [s]) = is_done s.
+Proof.
+  induction l as [|a r IH]; cbn [app last_done]; [reflexivity|].
+  destruct (r ++ [s]) eqn:E; [destruct r; discriminate|]. exact IH.
+Qed.
+
+Lemma last_done_tl a b l : last_done (a :: b :: l) = last_done (b :: l).
+Proof. reflexivity. Qed.
+
 Lemma is_failed_done d st : is_failed (RExec d st) = true -> is_done st = true.
 Proof. destruct st as [| |[] ?]; cbn; congruence. Qed.
 
@@ -144,7 +166,8 @@ Proof. destruct st as [| |[] ?]; cbn; congruence. Qed.
 (* Outputs of executor steps never touch owes/synced. *)
 Lemma xstep_frame c x e x' o m :
   xstep x e = (x', o) ->
-  m_owes (mon_outs c m o) = m_owes m /\ m_synced (mon_outs c m o) = m_synced m.
+  m_owes (mon_outs c m o) = m_owes m /\ m_synced (mon_outs c m o) = m_synced m
+  /\ m_upd (mon_outs c m o) = m_upd m /\ m_slot (mon_outs c m o) = m_slot m.
 Proof.
   unfold xstep. destruct e as [k|ok tag|].
   - destruct (x_finished x || is_some (x_pending x)).
@@ -180,94 +203,132 @@ Proof. reflexivity. Qed.
 Lemma optN_eqb_refl a : optN_eqb a a = true.
 Proof. destruct a; cbn; auto using N.eqb_refl. Qed.
 
+Lemma slot_inv_ext rep x m m' :
+  m_live m' = m_live m -> m_cur m' = m_cur m -> m_closed m' = m_closed m ->
+  slot_inv rep x m -> slot_inv rep x m'.
+Proof. unfold slot_inv. intros -> -> ->. auto. Qed.
+
 (* One executor step keeps the invariant and raises no alarm. *)
 Lemma xstep_ok c rep x m e x' o :
   slot_inv rep x m -> xstep x e = (x', o) ->
   chk_outs chk_all c m o = ""%string /\ slot_inv rep x' (mon_outs c m o).
 Proof.
-  intros Hinv Hx. pose proof Hinv as (Hlive & (cu & Hcur & Hdig & (st & Hrep & Hhon) & Hall) & Hseq & Hcl).
+  intros Hinv Hx. pose proof Hinv as (Hlive & (cu & Hcur & Hdig & (st & Hrep & Hhon) & Hall) & Hseq & Hcl & Hld & Hmc).
+  assert (Hign : forall e', chk_outs chk_all c m [OX e' XIgnored] = ""%string
+                            /\ slot_inv rep x (mon_outs c m [OX e' XIgnored])).
+  { intros e'. split; [reflexivity|]. eapply slot_inv_ext; [| | |exact Hinv]; cbn; rewrite ?orb_false_r; reflexivity. }
   unfold xstep in Hx. destruct e as [k|ok tag|].
   - (* update *)
     destruct (x_finished x || is_some (x_pending x)) eqn:E.
-    { injection Hx as <- <-. cbn. split; [reflexivity|exact Hinv]. }
+    { injection Hx as <- <-. apply Hign. }
     apply or_false_split in E as [Hfin Hpend]. apply is_some_false in Hpend.
     destruct (enqueue x (x_dig x, StUpd k)) as [x1 r] eqn:En. injection Hx as <- <-.
     destruct (enqueue_qs _ _ _ _ Hpend En) as (Hq & Hid & Hd & Hf & Hc & Hr & _).
     assert (Hem : emitted (XUpdate k) r = Some (StUpd k)) by (destruct Hr as [-> | ->]; reflexivity).
-    cbn [chk_outs mon_outs mon_next]. rewrite Hem. split; [reflexivity|].
-    unfold slot_inv. cbn [m_live m_cur]. rewrite Hid, Hd, Hf, Hc, Hq, Hcur. cbn [add_em].
+    assert (Hxc : is_xclosed r = false) by (destruct Hr as [-> | ->]; reflexivity).
+    cbn [chk_outs mon_outs mon_next]. rewrite Hem, Hxc, orb_false_r. split; [reflexivity|].
+    unfold slot_inv. cbn [m_live m_cur m_closed]. rewrite Hid, Hd, Hf, Hc, Hq, Hcur. cbn [add_em].
     split; [exact Hlive|]. split.
     + eexists. split; [reflexivity|]. cbn [c_dig]. split; [exact Hdig|]. split.
       * exists st. split; [exact Hrep|]. apply hon_add. exact Hhon.
       * apply Forall_app. split.
         -- eapply Forall_impl; [|exact Hall]. intros u Hu. apply hon_add. exact Hu.
         -- constructor; [|constructor]. cbn [fst snd]. rewrite <- Hdig. apply hon_new.
-    + split.
+    + split; [|split; [|split]].
       * rewrite map_app, app_assoc. cbn [map snd]. rewrite Hfin in *.
         apply seq_ok_snoc; [apply seq_ok_false_all; exact Hseq|reflexivity].
       * intros Hc'. destruct (Hcl Hc') as [Hf' _]. congruence.
+      * intros Hf'. congruence.
+      * exact Hmc.
   - (* finish *)
     destruct (x_finished x || is_some (x_pending x)) eqn:E.
-    { injection Hx as <- <-. cbn. split; [reflexivity|exact Hinv]. }
+    { injection Hx as <- <-. apply Hign. }
     apply or_false_split in E as [Hfin Hpend]. apply is_some_false in Hpend.
     destruct (enqueue (set_finished x) (x_dig x, StDone ok tag)) as [x1 r] eqn:En. injection Hx as <- <-.
     destruct (enqueue_qs (set_finished x) _ _ _ Hpend En) as (Hq & Hid & Hd & Hf & Hc & Hr & _).
     cbn [set_finished x_id x_dig x_finished x_closed] in Hid, Hd, Hf, Hc.
     assert (Hem : emitted (XFinish ok tag) r = Some (StDone ok tag)) by (destruct Hr as [-> | ->]; reflexivity).
-    cbn [chk_outs mon_outs mon_next]. rewrite Hem.
+    assert (Hxc : is_xclosed r = false) by (destruct Hr as [-> | ->]; reflexivity).
+    cbn [chk_outs mon_outs mon_next]. rewrite Hem, Hxc, orb_false_r.
     rewrite Hfin in Hlive.
     split.
-    { unfold chk_all at 1. cbn [chk_one_executor chk_report_honest chk_idle_after_failure chk_shutdown chk_terminate].
+    { unfold chk_all at 1. cbn [chk_one_executor chk_report_honest chk_completion chk_idle_after_failure chk_shutdown chk_terminate].
       rewrite Hlive, optN_eqb_refl. reflexivity. }
-    unfold slot_inv. cbn [m_live m_cur]. rewrite Hid, Hd, Hf, Hc, Hq, Hcur, Hlive, optN_eqb_refl. cbn [add_em].
+    unfold slot_inv. cbn [m_live m_cur m_closed]. rewrite Hid, Hd, Hf, Hc, Hq, Hcur, Hlive, optN_eqb_refl. cbn [add_em].
     split; [reflexivity|]. split.
     + eexists. split; [reflexivity|]. cbn [c_dig]. split; [exact Hdig|]. split.
       * exists st. split; [exact Hrep|]. apply hon_add. exact Hhon.
       * change (qs (set_finished x)) with (qs x). apply Forall_app. split.
         -- eapply Forall_impl; [|exact Hall]. intros u Hu. apply hon_add. exact Hu.
         -- constructor; [|constructor]. cbn [fst snd]. rewrite <- Hdig. apply hon_new.
-    + split.
-      * change (qs (set_finished x)) with (qs x).
-        rewrite map_app, app_assoc. cbn [map snd]. rewrite Hfin in Hseq.
+    + change (qs (set_finished x)) with (qs x). split; [|split; [|split]].
+      * rewrite map_app, app_assoc. cbn [map snd]. rewrite Hfin in Hseq.
         apply seq_ok_snoc; [apply seq_ok_false_all; exact Hseq|reflexivity].
       * intros Hc'. destruct (Hcl Hc') as [Hf' _]. congruence.
+      * intros _. rewrite map_app, app_assoc. cbn [map snd]. apply last_done_snoc.
+      * exact Hmc.
   - (* close *)
     destruct (x_finished x && negb (is_some (x_pending x)) && negb (x_closed x)) eqn:E.
-    + injection Hx as <- <-. cbn. split; [reflexivity|].
+    + injection Hx as <- <-. split; [reflexivity|].
       apply andb_true_iff in E as [E Hc]. apply andb_true_iff in E as [Hf Hp].
       apply negb_true_iff in Hp. apply is_some_false in Hp.
-      unfold slot_inv. cbn [set_closed x_id x_dig x_finished x_closed x_pending].
+      unfold slot_inv. cbn [mon_outs mon_next emitted m_live m_cur m_closed is_xclosed set_closed x_id x_dig x_finished x_closed x_pending].
       change (qs (set_closed x)) with (qs x).
       split; [exact Hlive|]. split; [exists cu; split; [exact Hcur|]; split; [exact Hdig|]; split; [exists st; auto|exact Hall]|].
-      split; [exact Hseq|]. intros _. split; [exact Hf|exact Hp].
-    + injection Hx as <- <-. cbn. split; [reflexivity|exact Hinv].
+      split; [exact Hseq|]. split; [intros _; split; [exact Hf|exact Hp]|]. split; [exact Hld|apply orb_true_r].
+    + injection Hx as <- <-. apply Hign.
 Qed.
 
 Lemma xsteps_ok c rep es : forall x m x' o,
   slot_inv rep x m -> xsteps x es = (x', o) ->
   chk_outs chk_all c m o = ""%string /\ slot_inv rep x' (mon_outs c m o)
-  /\ m_owes (mon_outs c m o) = m_owes m /\ m_synced (mon_outs c m o) = m_synced m.
+  /\ m_owes (mon_outs c m o) = m_owes m /\ m_synced (mon_outs c m o) = m_synced m
+  /\ m_upd (mon_outs c m o) = m_upd m /\ m_slot (mon_outs c m o) = m_slot m.
 Proof.
   induction es as [|e r IH]; intros x m x' o Hinv Hx; cbn [xsteps] in Hx.
-  - injection Hx as <- <-. cbn. auto.
+  - injection Hx as <- <-. cbn. auto 10.
   - destruct (xstep x e) as [x1 o1] eqn:E1. destruct (xsteps x1 r) as [x2 o2] eqn:E2.
     injection Hx as <- <-.
     destruct (xstep_ok c _ _ _ _ _ _ Hinv E1) as [Hc1 Hi1].
-    destruct (xstep_frame c _ _ _ _ m E1) as [Ho1 Hs1].
-    destruct (IH _ _ _ _ Hi1 E2) as (Hc2 & Hi2 & Ho2 & Hs2).
+    destruct (xstep_frame c _ _ _ _ m E1) as (Ho1 & Hs1 & Hu1 & Hk1).
+    destruct (IH _ _ _ _ Hi1 E2) as (Hc2 & Hi2 & Ho2 & Hs2 & Hu2 & Hk2).
     rewrite mon_outs_app. split; [apply chk_outs_app_nil; assumption|].
-    split; [exact Hi2|]. split; congruence.
+    split; [exact Hi2|]. split; [congruence|]. split; [congruence|]. split; congruence.
 Qed.
 
 (* ---- the client side: receiving --------------------------------------------------- *)
 
 Lemma Inv_ext rep sl m m' :
-  m_live m' = m_live m -> m_cur m' = m_cur m -> (m_owes m' = true -> m_owes m = true) ->
+  m_live m' = m_live m -> m_cur m' = m_cur m -> m_closed m' = m_closed m ->
+  (m_owes m' = true -> m_owes m = true) ->
   Inv rep sl m -> Inv rep sl m'.
 Proof.
-  intros Hl Hc Ho [H1 H2]. split.
-  - destruct sl as [x|]; [unfold slot_inv in *|unfold noslot_inv in *]; rewrite Hl, Hc; exact H1.
+  intros Hl Hc Hk Ho [H1 H2]. split.
+  - destruct sl as [x|]; [eapply slot_inv_ext; eassumption|unfold noslot_inv in *; rewrite Hl, Hc; exact H1].
   - intros H. apply H2, Ho, H.
+Qed.
+
+(* Taking the oldest queued update: it becomes the reported state. *)
+Lemma slot_inv_pop rep x m d st' q :
+  slot_inv rep x m -> x_queue x = (d, st') :: q ->
+  slot_inv (RExec d st')
+    (mkSlot (x_id x) (x_dig x) (q ++ opt_list (x_pending x)) None (x_finished x) (x_closed x)) m
+  /\ d = x_dig x.
+Proof.
+  intros (Hlive & (cu & Hcur & Hdig & (st & Hrep & Hhon) & Hall) & Hseq & Hcl & Hld & Hmc) Q.
+  assert (Hq : qs x = (d, st') :: (q ++ opt_list (x_pending x))) by (unfold qs; rewrite Q; reflexivity).
+  rewrite Hq in Hall, Hseq, Hld. inversion Hall as [|u l Hu Hl]; subst u l. cbn [fst snd] in Hu.
+  assert (Hd : d = x_dig x).
+  { unfold hon in Hu. apply andb_true_iff in Hu as [Hu _]. apply N.eqb_eq in Hu. congruence. }
+  split; [|exact Hd]. subst d. rewrite Hrep in Hseq, Hld. cbn [rep_stage app map snd] in Hseq, Hld.
+  unfold slot_inv. cbn [x_id x_dig x_queue x_pending x_finished x_closed].
+  split; [exact Hlive|]. split.
+  - exists cu. split; [exact Hcur|]. split; [exact Hdig|]. split; [exists st'; auto|].
+    unfold qs. cbn [x_queue x_pending opt_list]. rewrite app_nil_r. exact Hl.
+  - unfold qs. cbn [x_queue x_pending opt_list rep_stage app]. rewrite app_nil_r.
+    split; [apply seq_ok_tl in Hseq; exact Hseq|].
+    split; [intros C; destruct (Hcl C) as [Hf _]; auto|].
+    split; [intros F; rewrite <- last_done_tl with (a := st); exact (Hld F)|exact Hmc].
 Qed.
 
 Lemma consume_ok fuel : forall rep x m rep' sl',
@@ -276,59 +337,92 @@ Lemma consume_ok fuel : forall rep x m rep' sl',
 Proof.
   induction fuel as [|f IH]; intros rep x m rep' sl' Hinv Howes Hc; cbn [consume] in Hc.
   { injection Hc as <- <-. split; assumption. }
-  pose proof Hinv as (Hlive & (cu & Hcur & Hdig & (st & Hrep & Hhon) & Hall) & Hseq & Hcl).
+  pose proof Hinv as (Hlive & (cu & Hcur & Hdig & (st & Hrep & Hhon) & Hall) & Hseq & Hcl & Hld & Hmc).
   unfold recv in Hc. destruct (x_queue x) as [|[d st'] q] eqn:Q.
   - destruct (x_closed x) eqn:C.
-    + injection Hc as <- <-. destruct (Hcl eq_refl) as [Hf _]. rewrite Hf in Hlive.
-      split; [|exact Howes]. split; [exact Hlive|]. right. exists cu, (x_dig x), st. auto.
+    + injection Hc as <- <-. destruct (Hcl eq_refl) as [Hf Hp]. rewrite Hf in Hlive.
+      split; [|exact Howes]. split; [exact Hlive|]. right. exists cu, (x_dig x), st.
+      split; [exact Hcur|]. split; [exact Hrep|]. split; [exact Hhon|].
+      specialize (Hld Hf). unfold qs in Hld. rewrite Q, Hp, Hrep in Hld. exact Hld.
     + injection Hc as <- <-. split; assumption.
-  - assert (Hq : qs x = (d, st') :: (q ++ opt_list (x_pending x))) by (unfold qs; rewrite Q; reflexivity).
-    rewrite Hq in Hall, Hseq. inversion Hall as [|u l Hu Hl]; subst u l. cbn [fst snd] in Hu.
-    assert (Hd : d = x_dig x).
-    { unfold hon in Hu. apply andb_true_iff in Hu as [Hu _]. apply N.eqb_eq in Hu. congruence. }
-    subst d. rewrite Hrep in Hseq. cbn [rep_stage app map snd] in Hseq.
+  - destruct (slot_inv_pop _ _ _ _ _ _ Hinv Q) as [Hpop Hd].
     assert (Hno : m_owes m = false).
     { destruct (m_owes m) eqn:O; [|reflexivity]. destruct (Howes eq_refl) as [Hi|Hf]; [congruence|].
       rewrite Hrep in Hf. apply is_failed_done in Hf.
+      unfold qs in Hseq. rewrite Q, Hrep in Hseq. cbn [rep_stage app map snd] in Hseq.
       destruct (seq_ok_done_head _ _ _ Hf Hseq) as [Hnil _]. discriminate. }
-    eapply IH; [|intros H; congruence|exact Hc].
-    unfold slot_inv. cbn [x_id x_dig x_queue x_pending x_finished x_closed].
-    split; [exact Hlive|]. split.
-    + exists cu. split; [exact Hcur|]. split; [exact Hdig|]. split; [exists st'; auto|].
-      unfold qs. cbn [x_queue x_pending opt_list]. rewrite app_nil_r. exact Hl.
-    + split.
-      * unfold qs. cbn [x_queue x_pending opt_list rep_stage app]. rewrite app_nil_r.
-        apply seq_ok_tl in Hseq. exact Hseq.
-      * intros C. destruct (Hcl C) as [Hf _]. auto.
+    eapply IH; [exact Hpop|intros H; congruence|exact Hc].
+Qed.
+
+(* Draining a closed channel with enough fuel ends at the close, and what is
+   then reported is the Completed. *)
+Lemma consume_closed_done fuel : forall rep x m rep' sl',
+  slot_inv rep x m -> x_closed x = true -> (List.length (x_queue x) < fuel)%nat ->
+  consume fuel rep x = (rep', sl') -> is_done_rep rep' = true /\ sl' = None.
+Proof.
+  induction fuel as [|f IH]; intros rep x m rep' sl' Hinv C Hlen Hc; [inversion Hlen|].
+  cbn [consume] in Hc.
+  pose proof Hinv as (Hlive & (cu & Hcur & Hdig & (st & Hrep & Hhon) & Hall) & Hseq & Hcl & Hld & Hmc).
+  unfold recv in Hc. destruct (x_queue x) as [|[d st'] q] eqn:Q.
+  - rewrite C in Hc. injection Hc as <- <-. split; [|reflexivity].
+    destruct (Hcl C) as [Hf Hp]. specialize (Hld Hf). unfold qs in Hld. rewrite Q, Hp, Hrep in Hld.
+    rewrite Hrep. cbn in Hld |- *. destruct st; try discriminate; reflexivity.
+  - destruct (slot_inv_pop _ _ _ _ _ _ Hinv Q) as [Hpop _].
+    destruct (Hcl C) as [_ Hp].
+    eapply IH; [exact Hpop|exact C| |exact Hc].
+    cbn [x_queue]. rewrite Hp, app_nil_r. cbn [List.length] in Hlen. apply Nat.succ_lt_mono. exact Hlen.
 Qed.
 
 Lemma chk_all_OTimer c m d f : chk_all c m (OTimer d f) = ""%string.
 Proof. reflexivity. Qed.
 
 Lemma phase_updates_ok c rep next now sl sel m rep' next' sl' o :
-  Inv rep sl m -> phase_updates rep next now sl sel = (rep', next', sl', o) ->
+  Inv rep sl m -> m_upd m = false -> phase_updates rep next now sl sel = (rep', next', sl', o) ->
   chk_outs chk_all c m o = ""%string /\ Inv rep' sl' (mon_outs c m o)
-  /\ m_owes (mon_outs c m o) = m_owes m /\ m_synced (mon_outs c m o) = m_synced m.
+  /\ m_owes (mon_outs c m o) = m_owes m /\ m_synced (mon_outs c m o) = m_synced m
+  /\ (m_closed (mon_outs c m o) = true -> m_upd (mon_outs c m o) = true -> is_done_rep rep' = true)
+  /\ m_slot (mon_outs c m o) = m_slot m.
 Proof.
-  intros [Hinv Howes] Hp. unfold phase_updates in Hp. destruct sl as [x|].
-  2:{ injection Hp as <- <- <- <-. cbn. split; [reflexivity|]. split; [split; assumption|auto]. }
+  intros [Hinv Howes] Hup Hp. unfold phase_updates in Hp. destruct sl as [x|].
+  2:{ injection Hp as <- <- <- <-. cbn [chk_outs mon_outs]. split; [reflexivity|]. split; [split; assumption|].
+      split; [reflexivity|]. split; [reflexivity|]. split; [intros _ H; congruence|reflexivity]. }
   destruct (if avail x then (x, []) else xsteps x sel) as [x1 o2] eqn:Ex.
-  assert (Hx : chk_outs chk_all c m o2 = ""%string /\ slot_inv rep x1 (mon_outs c m o2)
-               /\ m_owes (mon_outs c m o2) = m_owes m /\ m_synced (mon_outs c m o2) = m_synced m).
+  set (fired := match recv x1 with (RcvBlock, _) => true | _ => false end) in Hp.
+  set (mT := mon_next c m (OTimer (next - now) fired)).
+  assert (HiT : slot_inv rep x mT) by (eapply slot_inv_ext; [| | |exact Hinv]; reflexivity).
+  assert (Hx : chk_outs chk_all c mT o2 = ""%string /\ slot_inv rep x1 (mon_outs c mT o2)
+               /\ m_owes (mon_outs c mT o2) = m_owes m /\ m_synced (mon_outs c mT o2) = m_synced m
+               /\ m_upd (mon_outs c mT o2) = negb fired /\ m_slot (mon_outs c mT o2) = m_slot m).
   { destruct (avail x).
-    - injection Ex as <- <-. cbn. auto.
-    - eapply xsteps_ok; eassumption. }
-  destruct Hx as (Hc2 & Hi2 & Ho2 & Hs2).
-  assert (Hcons : exists n f, consume n rep x1 = (rep', sl') /\ o = OTimer (next - now) f :: o2).
-  { destruct (recv x1) as [[| |[d st]] x2] eqn:Er.
-    - injection Hp as <- <- <- <-. exists 1%nat. eexists. cbn [consume]. rewrite Er. auto.
-    - injection Hp as <- <- <- <-. exists 1%nat. eexists. cbn [consume]. rewrite Er. auto.
+    - injection Ex as <- <-. cbn [chk_outs mon_outs]. auto 10.
+    - destruct (xsteps_ok c _ _ _ _ _ _ HiT Ex) as (A & B & C & D & E & F). auto 10. }
+  destruct Hx as (Hc2 & Hi2 & Ho2 & Hs2 & Hu2 & Hk2).
+  assert (Hcons : exists n, consume n rep x1 = (rep', sl') /\ o = OTimer (next - now) fired :: o2
+            /\ (x_closed x1 = true -> fired = false -> is_done_rep rep' = true)).
+  { pose proof Hi2 as (_ & (cu & _ & _ & (st0 & Hrep0 & _) & _) & _ & Hcl & Hld & _).
+    clearbody mT. subst fired. destruct (recv x1) as [[| |[d st]] x2] eqn:Er.
+    - injection Hp as <- <- <- <-. exists 1%nat. cbn [consume]. rewrite Er.
+      split; [reflexivity|]. split; [reflexivity|]. intros _ H. discriminate.
+    - injection Hp as <- <- <- <-. exists 1%nat. cbn [consume]. rewrite Er.
+      split; [reflexivity|]. split; [reflexivity|]. intros C _.
+      unfold recv in Er. destruct (x_queue x1) as [|u q] eqn:Q; [|discriminate].
+      destruct (Hcl C) as [Hf Hpn]. specialize (Hld Hf). unfold qs in Hld. rewrite Q, Hpn, Hrep0 in Hld.
+      rewrite Hrep0. cbn in Hld |- *. destruct st0; try discriminate; reflexivity.
     - destruct (consume (consume_fuel x2) (RExec d st) x2) as [r' s'] eqn:Ec.
-      injection Hp as <- <- <- <-. exists (S (consume_fuel x2)). eexists. cbn [consume]. rewrite Er. auto. }
-  destruct Hcons as (n & f & Hn & ->).
-  cbn [chk_outs mon_outs]. rewrite chk_all_OTimer. cbn [cat2 is_empty mon_next].
-  split; [exact Hc2|]. split; [|auto].
-  eapply consume_ok; [exact Hi2| |exact Hn]. rewrite Ho2. exact Howes.
+      injection Hp as <- <- <- <-. exists (S (consume_fuel x2)). cbn [consume]. rewrite Er.
+      split; [exact Ec|]. split; [reflexivity|]. intros C _.
+      unfold recv in Er. destruct (x_queue x1) as [|[d' st'] q] eqn:Q.
+      { destruct (x_closed x1); discriminate. }
+      injection Er as <- <- <-. destruct (slot_inv_pop _ _ _ _ _ _ Hi2 Q) as [Hpop _].
+      eapply (consume_closed_done _ _ _ _ _ _ Hpop); [exact C| |exact Ec].
+      unfold consume_fuel, lt. cbn [x_queue]. apply le_S, le_S, le_n. }
+  destruct Hcons as (n & Hn & -> & Hdone).
+  cbn [chk_outs mon_outs]. rewrite chk_all_OTimer. cbn [cat2 is_empty]. fold mT.
+  split; [exact Hc2|]. split; [eapply consume_ok; [exact Hi2| |exact Hn]; rewrite Ho2; exact Howes|].
+  split; [exact Ho2|]. split; [exact Hs2|]. split; [|exact Hk2].
+  intros Hc Hu. apply Hdone.
+  - destruct Hi2 as (_ & _ & _ & _ & _ & Hmc). rewrite <- Hmc. exact Hc.
+  - rewrite Hu2 in Hu. destruct fired; [discriminate|reflexivity].
 Qed.
 
 (* Outputs other than OReady never touch the "readiness checked" flag. *)
@@ -339,8 +433,7 @@ Lemma mon_outs_ready c o : forall m, no_ready o = true -> m_ready (mon_outs c m 
 Proof.
   induction o as [|x r IH]; intros m H; cbn [mon_outs]; [reflexivity|].
   cbn [no_ready forallb] in H. apply andb_true_iff in H as [Hx Hr]. rewrite (IH _ Hr).
-  destruct x; try discriminate; cbn [mon_next]; try reflexivity.
-  destruct (emitted e r0); reflexivity.
+  destruct x; try discriminate; cbn [mon_next]; reflexivity.
 Qed.
 
 (* ---- the sticky "shutdown began" flag of the monitor ------------------------------------- *)
@@ -353,7 +446,7 @@ Proof. apply existsb_app. Qed.
 
 Lemma mon_next_shut c m o :
   m_shut (mon_next c m o) = match o with ORet _ _ => began c m | _ => m_shut m end.
-Proof. destruct o; cbn [mon_next m_shut]; try reflexivity. destruct (emitted e r); reflexivity. Qed.
+Proof. destruct o; cbn [mon_next m_shut]; reflexivity. Qed.
 
 (* Only the end of a Run (ORet) raises the flag, and then to [began]. *)
 Lemma mon_outs_shut c outs : forall m,
@@ -363,6 +456,15 @@ Proof.
   rewrite IH. unfold began. rewrite mon_next_shut.
   change (has_ret (o :: r)) with ((match o with ORet _ _ => true | _ => false end) || has_ret r).
   destruct o; cbn [orb]; unfold began; destruct (has_ret r), (m_shut m), (ctx_shutdown c); reflexivity.
+Qed.
+
+Lemma mon_outs_slot c outs : forall m,
+  m_slot (mon_outs c m outs) = if has_ret outs then o_exec (k_obs c) else m_slot m.
+Proof.
+  induction outs as [|o r IH]; intros m; cbn [mon_outs]; [reflexivity|].
+  rewrite IH.
+  change (has_ret (o :: r)) with ((match o with ORet _ _ => true | _ => false end) || has_ret r).
+  destruct o; cbn [orb mon_next m_slot]; destruct (has_ret r); reflexivity.
 Qed.
 
 Lemma mon_outs_began c outs m : began c (mon_outs c m outs) = began c m.
@@ -433,7 +535,13 @@ Lemma Inv_cur rep sl m :
 Proof.
   intros [H _]. destruct sl as [x|].
   - destruct H as (_ & (cu & Hcur & _ & (st & Hrep & Hhon) & _) & _). right. exists cu, (x_dig x), st. auto.
-  - destruct H as (Hl & [Hr|(cu & d & st & Hc & Hr & Hh)]); [left; auto|right; exists cu, d, st; auto].
+  - destruct H as (Hl & [Hr|(cu & d & st & Hc & Hr & Hh & _)]); [left; auto|right; exists cu, d, st; auto].
+Qed.
+
+Lemma Inv_noslot_not_executing rep m : Inv rep None m -> is_executing rep = false.
+Proof.
+  intros [(_ & [->|(cu & d & st & _ & -> & _ & Hd)]) _]; [reflexivity|].
+  destruct st; try discriminate; reflexivity.
 Qed.
 
 Lemma chk_all_OSync c rep sl m until prefer :
@@ -441,9 +549,11 @@ Lemma chk_all_OSync c rep sl m until prefer :
   (m_owes m = true -> rep = RIdle -> is_some until = true) ->
   (is_some until = false -> m_ready m = true) ->
   prefer = (if began c m then true else fst (prefer_of rep until)) ->
+  (m_closed m = true -> m_upd m = true -> is_done_rep rep = true) ->
+  (m_slot m = false -> is_executing rep = false) ->
   chk_all c m (OSync rep prefer true) = ""%string.
 Proof.
-  intros Hinv Ho Hrd Hp. pose proof (proj2 Hinv) as Howes.
+  intros Hinv Ho Hrd Hp Hdone Hnos. pose proof (proj2 Hinv) as Howes.
   unfold chk_all. cbn [chk_one_executor].
   assert (H2 : chk_report_honest c m (OSync rep prefer true) = ""%string).
   { destruct (Inv_cur _ _ _ Hinv) as [[-> Hl]|(cu & d & st & -> & Hc & Hh)].
@@ -464,7 +574,14 @@ Proof.
         * cbn [andb]. destruct rep as [|d st]; [rewrite (Hidle eq_refl); reflexivity|reflexivity]. }
   assert (H4 : chk_shutdown c m (OSync rep prefer true) = ""%string).
   { unfold chk_shutdown. subst prefer. destruct (began c m); reflexivity. }
-  rewrite H2, H3, H4. reflexivity.
+  assert (H5 : chk_completion c m (OSync rep prefer true) = ""%string).
+  { unfold chk_completion. destruct (m_closed m) eqn:C; cbn [andb].
+    - destruct (m_upd m) eqn:U; cbn [andb].
+      + rewrite (Hdone eq_refl eq_refl). cbn [negb]. destruct (m_slot m); cbn [negb andb]; [reflexivity|].
+        rewrite (Hnos eq_refl). reflexivity.
+      + destruct (m_slot m); cbn [negb andb]; [reflexivity|]. rewrite (Hnos eq_refl). reflexivity.
+    - destruct (m_slot m); cbn [negb andb]; [reflexivity|]. rewrite (Hnos eq_refl). reflexivity. }
+  rewrite H2, H3, H4, H5. reflexivity.
 Qed.
 
 Lemma stop_outs_ok c rep sl m :
@@ -478,9 +595,9 @@ Proof.
   intros [H _]. destruct sl as [x|]; cbn [stop_outs].
   - destruct H as (Hl & _). destruct (x_finished x).
     + cbn. auto.
-    + cbn [chk_outs mon_outs]. unfold chk_all at 1. cbn [chk_one_executor chk_report_honest chk_idle_after_failure chk_shutdown chk_terminate].
+    + cbn [chk_outs mon_outs]. unfold chk_all at 1. cbn [chk_one_executor chk_report_honest chk_completion chk_idle_after_failure chk_shutdown chk_terminate].
       rewrite Hl, optN_eqb_refl. cbn [cat2 is_empty mon_next].
-      unfold chk_all at 1. cbn [chk_one_executor chk_report_honest chk_idle_after_failure chk_shutdown chk_terminate].
+      unfold chk_all at 1. cbn [chk_one_executor chk_report_honest chk_completion chk_idle_after_failure chk_shutdown chk_terminate].
       rewrite Hl, optN_eqb_refl. cbn. rewrite ?N.eqb_refl. auto.
   - destruct H as [Hl _]. cbn. auto.
 Qed.
@@ -494,7 +611,7 @@ Lemma Inv_ORet c rep sl m may e :
   (e = ENone -> ctx_told_idle c && m_synced m = false) ->
   Inv rep sl m -> Inv rep sl (mon_next c m (ORet may e)).
 Proof.
-  intros H. apply Inv_ext; [reflexivity|apply mon_next_ORet_cur; exact H|auto].
+  intros H. apply Inv_ext; [reflexivity|apply mon_next_ORet_cur; exact H|reflexivity|auto].
 Qed.
 
 Lemma Inv_sync c rep sl m p l :
@@ -516,7 +633,7 @@ Lemma sync_evs_ok c rep sl es m sl4 o4 :
 Proof.
   intros [H1 H2] He. destruct sl as [x|].
   - destruct (xsteps x es) as [x' o] eqn:Ex. injection He as <- <-.
-    destruct (xsteps_ok c _ _ _ _ _ _ H1 Ex) as (Hc & Hi & Ho & Hs).
+    destruct (xsteps_ok c _ _ _ _ _ _ H1 Ex) as (Hc & Hi & Ho & Hs & _).
     split; [exact Hc|]. split; [|exact Hs]. split; [exact Hi|]. rewrite Ho. exact H2.
   - injection He as <- <-. cbn. split; [reflexivity|]. split; [split; assumption|reflexivity].
 Qed.
@@ -529,12 +646,14 @@ Proof.
 Qed.
 
 Lemma run_step_ok s m r s' o ob :
-  Inv (s_rep s) (s_slot s) m -> m_shut m = s_cancelled s ->
+  Inv (s_rep s) (s_slot s) m -> m_shut m = s_cancelled s -> m_slot m = is_some (s_slot s) ->
   run_step s r = (s', o) -> o_until ob = s_until s' ->
   chk_outs chk_all (mkCtx (ERun r) ob) (item_begin m) o = ""%string
   /\ Inv (s_rep s') (s_slot s') (mon_outs (mkCtx (ERun r) ob) (item_begin m) o).
 Proof.
-  intros Hinv Hshut Hr Hob. set (c := mkCtx (ERun r) ob). set (m0 := item_begin m).
+  intros Hinv Hshut Hslot Hr Hob. set (c := mkCtx (ERun r) ob). set (m0 := item_begin m).
+  assert (Hup0 : m_upd m0 = false) by reflexivity.
+  assert (Hsl0 : m_slot m0 = is_some (s_slot s)) by exact Hslot.
   assert (Hinv0 : Inv (s_rep s) (s_slot s) m0) by (apply Inv_item_begin; exact Hinv).
   assert (Hs0 : m_synced m0 = false) by reflexivity.
   assert (Hr0 : m_ready m0 = false) by reflexivity.
@@ -543,7 +662,7 @@ Proof.
     change (ctx_shutdown c) with (r_shutdown r || r_late r). apply orb_assoc. }
   assert (Hnow : ctx_now c = r_now r) by reflexivity.
   assert (Hobs : k_obs c = ob) by reflexivity.
-  clearbody m0. clear Hinv Hshut m.
+  clearbody m0. clear Hinv Hshut Hslot m.
   unfold run_step in Hr.
   destruct (sd_top s r && match s_until s with None => true | Some u => u <? r_now r end) eqn:E0.
   { (* may terminate at once *)
@@ -581,25 +700,33 @@ Proof.
                /\ Inv (s_rep s) (s_slot s) (mon_outs c m0 o1)
                /\ m_synced (mon_outs c m0 o1) = false
                /\ (m_owes (mon_outs c m0 o1) = true -> is_some (s_until s) = true)
-               /\ (is_some (s_until s) = false -> m_ready (mon_outs c m0 o1) = true)).
+               /\ (is_some (s_until s) = false -> m_ready (mon_outs c m0 o1) = true)
+               /\ m_upd (mon_outs c m0 o1) = false /\ m_slot (mon_outs c m0 o1) = m_slot m0).
   { subst o1. destruct (is_some (s_until s)) eqn:U; cbn [negb].
-    - cbn. split; [reflexivity|]. split; [exact Hinv0|]. split; [exact Hs0|]. split; [reflexivity|discriminate].
+    - cbn. split; [reflexivity|]. split; [exact Hinv0|]. split; [exact Hs0|]. split; [reflexivity|].
+      split; [discriminate|]. split; [exact Hup0|reflexivity].
     - cbn [negb andb] in E1. apply negb_false_iff in E1.
       cbn [chk_outs mon_outs]. rewrite chk_all_OReady. split; [reflexivity|].
-      split; [eapply Inv_ext; [| | |exact Hinv0]; cbn; auto|].
+      split; [eapply Inv_ext; [| | | |exact Hinv0]; cbn; auto|].
       + change (ctx_ready c) with (r_ready r). rewrite E1. discriminate.
-      + split; [exact Hs0|]. cbn. change (ctx_ready c) with (r_ready r). rewrite E1. split; [discriminate|reflexivity]. }
-  destruct H1 as (Hc1 & Hi1 & Hs1 & Hu1 & Hrd1). set (m1 := mon_outs c m0 o1) in *.
+      + split; [exact Hs0|]. cbn. change (ctx_ready c) with (r_ready r). rewrite E1.
+        split; [discriminate|]. split; [reflexivity|]. split; [exact Hup0|reflexivity]. }
+  destruct H1 as (Hc1 & Hi1 & Hs1 & Hu1 & Hrd1 & Hup1 & Hsl1). set (m1 := mon_outs c m0 o1) in *.
   (* o2 *)
-  destruct (phase_updates_ok c _ _ _ _ _ _ _ _ _ _ Hi1 Ep) as (Hc2 & Hi2 & Ho2 & Hs2).
+  destruct (phase_updates_ok c _ _ _ _ _ _ _ _ _ _ Hi1 Hup1 Ep) as (Hc2 & Hi2 & Ho2 & Hs2 & Hdone2 & Hsl2).
   set (m2 := mon_outs c m1 o2) in *.
   (* OSync *)
   assert (Hc3 : chk_all c m2 (OSync rep prefer true) = ""%string).
-  { eapply chk_all_OSync; [exact Hi2| | |].
+  { eapply chk_all_OSync; [exact Hi2| | | |exact Hdone2|].
     - intros Ho _. apply Hu1. rewrite <- Ho2. exact Ho.
     - intros U. unfold m2. rewrite (mon_outs_ready c o2 m1 (phase_updates_no_ready _ _ _ _ _ _ _ _ _ Ep)).
       apply Hrd1. exact U.
-    - subst prefer. unfold m2, m1. rewrite !mon_outs_began, Hbg0, Epf. reflexivity. }
+    - subst prefer. unfold m2, m1. rewrite !mon_outs_began, Hbg0, Epf. reflexivity.
+    - (* no slot when the Run began: nothing was received, and what is reported is Idle or a Completed *)
+      rewrite Hsl2, Hsl1, Hsl0. intros Hnone.
+      destruct (s_slot s) as [x|] eqn:Esl; [discriminate|].
+      cbn [phase_updates] in Ep. injection Ep as <- _ _ _.
+      eapply Inv_noslot_not_executing. exact Hi1. }
   destruct (Inv_sync c _ _ _ prefer true Hi2) as [Hi3 Hs3].
   set (m3 := mon_next c m2 (OSync rep prefer true)) in *.
   (* o4 *)
@@ -654,7 +781,7 @@ Proof.
     cbn [s_rep s_slot]. rewrite mon_outs_app. fold m5. split.
     + apply chk_outs_app_nil; [exact Hcs|]. fold m5. cbn [chk_outs].
       assert (Hst : chk_all c m5 (OStart (s_nextid s) d false) = ""%string).
-      { unfold chk_all. cbn [chk_one_executor chk_report_honest chk_idle_after_failure chk_shutdown chk_terminate].
+      { unfold chk_all. cbn [chk_one_executor chk_report_honest chk_completion chk_idle_after_failure chk_shutdown chk_terminate].
         rewrite Hls. reflexivity. }
       rewrite Hst. cbn [cat2 is_empty]. rewrite chk_all_ORet; [reflexivity| |discriminate].
       intros _. rewrite Htold. reflexivity.
@@ -665,7 +792,7 @@ Proof.
       * eexists. split; [reflexivity|]. cbn [c_dig]. split; [reflexivity|]. split.
         -- exists StStarted. split; [reflexivity|]. unfold hon. cbn. rewrite N.eqb_refl. reflexivity.
         -- constructor.
-      * split; [reflexivity|discriminate].
+      * split; [reflexivity|]. split; [discriminate|]. split; [discriminate|reflexivity].
   - eapply Herr in Hr; [exact Hr|discriminate|reflexivity|reflexivity].
   - eapply Herr in Hr; [exact Hr|discriminate|reflexivity|reflexivity].
 Qed.
@@ -695,21 +822,25 @@ Proof.
   destruct ce; cbn [fst snd s_cancelled]; (split; [apply H; reflexivity|reflexivity]).
 Qed.
 
-Definition Shut (s : state) (m : mon) : Prop := m_shut m = s_cancelled s.
+(* The monitor's two snapshots of the client: "shutdown began" and "held an
+   execution slot when the previous Run returned". *)
+Definition Shut (s : state) (m : mon) : Prop :=
+  m_shut m = s_cancelled s /\ m_slot m = is_some (s_slot s).
 
-Lemma step_shut s m e s' o ob :
-  Shut s m -> step s e = (s', o) -> Shut s' (mon_outs (mkCtx e ob) (item_begin m) o).
+Lemma step_shut s m e s' o :
+  Shut s m -> step s e = (s', o) -> Shut s' (mon_outs (mkCtx e (observe s')) (item_begin m) o).
 Proof.
-  unfold Shut. intros Hsh Hs. rewrite mon_outs_shut. unfold began.
-  change (m_shut (item_begin m)) with (m_shut m). rewrite Hsh.
+  unfold Shut. intros [Hsh Hsl] Hs. rewrite mon_outs_shut, mon_outs_slot. unfold began.
+  change (m_shut (item_begin m)) with (m_shut m). change (m_slot (item_begin m)) with (m_slot m).
+  rewrite Hsh, Hsl. cbn [k_obs observe o_exec].
   destruct e as [r|x]; cbn [step] in Hs.
   - destruct (run_step_ret_cancelled s r) as [Hret Hc]. rewrite Hs in Hret, Hc. cbn [fst snd] in Hret, Hc.
-    rewrite Hret, Hc. change (ctx_shutdown (mkCtx (ERun r) ob)) with (r_shutdown r || r_late r).
-    unfold sd_sync, sd_top. apply orb_assoc.
-  - change (ctx_shutdown (mkCtx (EExec x) ob)) with false. rewrite orb_false_r.
-    assert (Hc : s_cancelled s' = s_cancelled s).
-    { destruct (s_slot s) as [sl|]; [destruct (xstep sl x) as [sl' o']|]; injection Hs as <- _; reflexivity. }
-    rewrite Hc. destruct (has_ret o); reflexivity.
+    rewrite Hret, Hc. change (ctx_shutdown (mkCtx (ERun r) (observe s'))) with (r_shutdown r || r_late r).
+    split; [|reflexivity]. unfold sd_sync, sd_top. apply orb_assoc.
+  - change (ctx_shutdown (mkCtx (EExec x) (observe s'))) with false. rewrite orb_false_r.
+    assert (Hc : s_cancelled s' = s_cancelled s /\ is_some (s_slot s') = is_some (s_slot s)).
+    { destruct (s_slot s) as [sl|] eqn:E; [destruct (xstep sl x) as [sl' o']|]; injection Hs as <- _; cbn; rewrite ?E; auto. }
+    destruct Hc as [-> ->]. destruct (has_ret o); auto.
 Qed.
 
 (* ---- every step, every trace ---------------------------------------------------------- *)
@@ -719,8 +850,8 @@ Lemma step_ok s m e s' o :
   chk_outs chk_all (mkCtx e (observe s')) (item_begin m) o = ""%string
   /\ Inv (s_rep s') (s_slot s') (mon_outs (mkCtx e (observe s')) (item_begin m) o).
 Proof.
-  intros Hinv Hshut Hs. destruct e as [r|x]; cbn [step] in Hs.
-  - eapply run_step_ok; [exact Hinv|exact Hshut|exact Hs|reflexivity].
+  intros Hinv [Hshut Hslot] Hs. destruct e as [r|x]; cbn [step] in Hs.
+  - eapply run_step_ok; [exact Hinv|exact Hshut|exact Hslot|exact Hs|reflexivity].
   - apply Inv_item_begin in Hinv. set (m0 := item_begin m) in *. clearbody m0.
     destruct (s_slot s) as [sl|] eqn:Esl.
     + destruct (xstep sl x) as [sl' o'] eqn:Ex. injection Hs as <- <-. cbn [s_rep s_slot].
@@ -749,17 +880,17 @@ Lemma Inv_init t0 : Inv (s_rep (init t0)) (s_slot (init t0)) mon_init.
 Proof. split; [split; [reflexivity|left; reflexivity]|discriminate]. Qed.
 
 Lemma all_checks_hold t0 evs : chk_trace chk_all mon_init (trace (init t0) evs) = ""%string.
-Proof. apply trace_ok_gen; [apply Inv_init|reflexivity]. Qed.
+Proof. apply trace_ok_gen; [apply Inv_init|split; reflexivity]. Qed.
 
-(* chk_all is the conjunction of the five checks. *)
+(* chk_all is the conjunction of the six checks. *)
 Lemma chk_all_split c m o : chk_all c m o = ""%string ->
   chk_one_executor c m o = ""%string /\ chk_report_honest c m o = ""%string
   /\ chk_idle_after_failure c m o = ""%string /\ chk_shutdown c m o = ""%string
-  /\ chk_terminate c m o = ""%string.
+  /\ chk_terminate c m o = ""%string /\ chk_completion c m o = ""%string.
 Proof.
   unfold chk_all. intros H.
-  apply cat2_nil in H as [H1 H]. apply cat2_nil in H as [H2 H].
-  apply cat2_nil in H as [H3 H]. apply cat2_nil in H as [H4 H5]. auto.
+  apply cat2_nil in H as [H1 H]. apply cat2_nil in H as [H2 H]. apply cat2_nil in H as [H6 H].
+  apply cat2_nil in H as [H3 H]. apply cat2_nil in H as [H4 H5]. auto 10.
 Qed.
 
 Lemma is_empty_true s : s = ""%string -> is_empty s = true.
@@ -786,6 +917,9 @@ Lemma shutdown_holds t0 evs : trace_ok chk_shutdown (trace (init t0) evs) = true
 Proof. apply holds_component. intros c m o H. apply chk_all_split in H. tauto. Qed.
 
 Lemma terminate_holds t0 evs : trace_ok chk_terminate (trace (init t0) evs) = true.
+Proof. apply holds_component. intros c m o H. apply chk_all_split in H. tauto. Qed.
+
+Lemma completion_reported_holds t0 evs : trace_ok chk_completion (trace (init t0) evs) = true.
 Proof. apply holds_component. intros c m o H. apply chk_all_split in H. tauto. Qed.
 
 Lemma client_trace_ok_holds t0 evs : trace_ok chk_all (trace (init t0) evs) = true.
@@ -864,7 +998,7 @@ Proof.
   3:{ intros Hu. cbn [s_until] in Hu. contradiction. }
   - (* no change *)
     destruct ce; cbn [fst]; intros Hu; cbn [s_until s_slot] in *; [discriminate|].
-    destruct (phase_updates_ok (mkCtx (ERun r) (observe s)) _ _ _ _ _ _ _ _ _ _ Hinv Ep) as (_ & Hi2 & _).
+    destruct (phase_updates_ok (mkCtx (ERun r) (observe s)) _ _ _ _ _ _ _ _ _ _ (Inv_item_begin _ _ _ Hinv) eq_refl Ep) as (_ & Hi2 & _).
     destruct sl as [x|]; [|injection Es as <- _; exact I].
     destruct (xsteps x (r_sync r)) as [x' o'] eqn:Ex. injection Es as <- _.
     eapply xsteps_fin_mono; [exact Ex|].
@@ -887,7 +1021,7 @@ Qed.
 Lemma until_none_nothing_running_holds t0 evs :
   let s := run (init t0) evs in
   s_until s = None -> match s_slot s with Some x => x_finished x = true | None => True end.
-Proof. apply (run_quiet evs (init t0) mon_init); [apply Inv_init|reflexivity|]. intros _. exact I. Qed.
+Proof. apply (run_quiet evs (init t0) mon_init); [apply Inv_init|split; reflexivity|]. intros _. exact I. Qed.
 
 (* ---- the channel never holds more than its capacity -------------------------------- *)
 
@@ -1006,7 +1140,7 @@ Proof.
   induction evs as [|e r IH]; intros s m Hinv Hshut Hq; cbn [trace end_trace]; [reflexivity|].
   destruct (step s e) as [s' o] eqn:Es. cbn [end_trace ctx_of i_ev i_outs i_obs].
   destruct (step_ok _ _ _ _ _ Hinv Hshut Es) as [_ Hi].
-  pose proof (step_shut _ _ _ _ _ (observe s') Hshut Es) as Hshut'.
+  pose proof (step_shut _ _ _ _ _ Hshut Es) as Hshut'.
   pose proof (step_quiet s m e Hinv Hq) as Hq'. rewrite Es in Hq'. cbn [fst] in Hq'.
   change (ctx_of (mkItem e o (observe s'))) with (mkCtx e (observe s')).
   set (m' := mon_outs (mkCtx e (observe s')) (item_begin m) o) in *.
@@ -1020,5 +1154,5 @@ Qed.
 
 Lemma until_nil_means_idle_holds t0 evs : end_ok (trace (init t0) evs) = true.
 Proof.
-  unfold end_ok. apply is_empty_true. apply end_trace_gen; [apply Inv_init|reflexivity|]. intros _. exact I.
+  unfold end_ok. apply is_empty_true. apply end_trace_gen; [apply Inv_init|split; reflexivity|]. intros _. exact I.
 Qed.
